@@ -305,6 +305,65 @@ fn ack_accounting() {
     core::mem::forget(s);
     core::mem::forget(e);
 }
+/// One 2-byte frame taken in pieces through the public read API (fill_buf, consume(1), fill_buf,
+/// consume(1), fill_buf): however many calls it takes, exactly ONE frame is counted -
+/// acknowledged frames + the running counter = frames received.
+fn ack_accounting_partial_reads() {
+    let threshold: u32 = kani::any();
+    let since: u32 = kani::any();
+    kani::assume(threshold >= 1 && since < threshold);
+    let (mut s, mut e) = mk_stream(1, 2, threshold, since, false);
+    let f: [u8; 2] = kani::any();
+    e.inbound_tx.as_ref().unwrap().try_send(Bytes::copy_from_slice(&f)).unwrap();
+    let n1 = cx_poll(|cx| match Pin::new(&mut s).poll_fill_buf(cx) {
+        Poll::Ready(Ok(b)) => b.len(),
+        _ => 99,
+    });
+    vassert!(n1 == 2, "P:C02 the queued frame was not offered whole");
+    Pin::new(&mut s).consume(1);
+    let n2 = cx_poll(|cx| match Pin::new(&mut s).poll_fill_buf(cx) {
+        Poll::Ready(Ok(b)) => {
+            if b.len() == 1 && b[0] == f[1] {
+                1
+            } else {
+                98
+            }
+        }
+        _ => 99,
+    });
+    vassert!(n2 == 1, "P:C02 the unread tail of a partially consumed frame was not offered again");
+    Pin::new(&mut s).consume(1);
+    let pending = cx_poll(|cx| Pin::new(&mut s).poll_fill_buf(cx).is_pending());
+    vassert!(pending, "P:C05 a drained stream whose peer has not finished is not pending");
+    // acknowledged + counted = since + 1, with at most one Acknowledge, sent only at the threshold
+    let mut acked: u64 = 0;
+    let mut acks = 0;
+    let mut k = 0;
+    while k < 3 {
+        match e.out_rx.try_recv() {
+            Ok(Message::Binary(b)) => {
+                vassert!(classify(&b[..]) == Out::Frame { op: OpCode::Acknowledge, id: FLOW }, "P:C03 reading emitted something other than an Acknowledge of its flow");
+                acked += be32(&b[..], 5) as u64;
+                acks += 1;
+            }
+            Ok(_) => vfail!("P:C03 reading emitted a non-frame message"),
+            Err(_) => {}
+        }
+        k += 1;
+    }
+    vassert!(acked + s.psh_recvd_since as u64 == since as u64 + 1, "P:C03 frames acknowledged plus frames counted differ from frames received (a frame acknowledged twice or not at all)");
+    vassert!(acks <= 1, "P:C03 more than one Acknowledge for one received frame");
+    if acks == 1 {
+        vassert!(since + 1 >= threshold, "P:C03 Acknowledge sent before the threshold");
+    } else {
+        vassert!(since + 1 < threshold, "P:C04 no Acknowledge although the threshold was reached");
+    }
+    kani::cover!(acks == 1, "?acknowledge emitted");
+    kani::cover!(acks == 0, "?below threshold");
+    kani::cover!(true, "accounting evaluated");
+    core::mem::forget(s);
+    core::mem::forget(e);
+}
 fn credit_return() {
     let credit: u32 = kani::any();
     let n: u32 = kani::any();
@@ -432,6 +491,7 @@ h!(c02_r_rem1_q1_cap3, 8, r_read::<1>(1, 3));
 h!(c02_r_rem2_q0_cap1, 8, r_read::<2>(0, 1));
 h!(c02_r_rem2_q2_cap3, 8, r_read::<2>(2, 3));
 h!(c03_ack_accounting, 8, ack_accounting());
+h!(c03_ack_accounting_partial_reads, 8, ack_accounting_partial_reads());
 h!(c03_credit_return, 8, credit_return());
 h!(c05_shutdown_once, 8, shutdown_once());
 // `when`: 0 = before the writer's poll; k in 1..=5 = at the k-th place where the poll logs
